@@ -92,7 +92,9 @@ def programs(draw, max_modules=3, max_tasks=4, kinds=KINDS_BASIC, patterns=True,
                 if flavour == 1:
                     p['ignore'] = True
                 if flavour in (2, 3, 4):
-                    p['default'] = {'v': draw(_pv())}
+                    # (defaults live in code and are never substituted: a default that spells a DEFINED placeholder would
+                    #  print like a configured, substituted string although the two values differ - see DESIGN 3.3)
+                    p['default'] = {'v': _no_defined_placeholders(draw(_pv()))}
                     p['dpdv'] = draw(st.booleans())
                 if k == 'path' and flavour >= 5:
                     # a dtype=Path parameter (its values are path strings, often with a {PLACEHOLDER})
@@ -273,6 +275,16 @@ def value_for(draw, plist, nested_ok=True):
                     v = copy.deepcopy(d)
             except Exception:
                 pass
+    return v
+
+
+def _no_defined_placeholders(v):
+    if isinstance(v, str):
+        return v.replace('{DATA}', 'DATA').replace('{CFGDIR}', 'CFGDIR')
+    if isinstance(v, list):
+        return [_no_defined_placeholders(x) for x in v]
+    if isinstance(v, dict):
+        return {_no_defined_placeholders(k): _no_defined_placeholders(x) for k, x in v.items()}
     return v
 
 
